@@ -30,7 +30,7 @@ load_throughput: []
 load_throughput_default: [[1, ['L0', 'L1']]]
 store_throughput: []
 store_throughput_default: [[1, ['L0', 'L1']], [1, ['ST']]]
-ports: ['P0', 'P1', 'P2', 'P3', 'L0', 'L1', 'ST']
+ports: %(ports)s
 instruction_forms:
 """
 REGS = {"gpr": ["%rax", "%rbx", "%rcx"], "ymm": ["%ymm1", "%ymm2", "%ymm3"]}
@@ -56,9 +56,11 @@ def gen_model(rnd, tmp, idx, with_mult):
     mult = {"gpr": 1.0, "xmm": 1.0, "ymm": 2.0}
     mtxt = ("load_throughput_multiplier: {gpr: 1.0, xmm: 1.0, ymm: 2.0}\nstore_throughput_multiplier: {gpr: 1.0, xmm: 1.0, ymm: 2.0}" if with_mult else "")
     path = os.path.join(tmp, "syn%d.yml" % idx)
+    # every model lists the ports in its own order (all models share the arch_code: nothing may be keyed by it)
+    order = rnd.sample(PORTS, len(PORTS))
     with open(path, "w") as f:
-        f.write(HEADER % dict(mult=mtxt) + "".join(forms))
-    return path, spec, (mult if with_mult else {"gpr": 1.0, "ymm": 1.0})
+        f.write(HEADER % dict(mult=mtxt, ports="[" + ", ".join("'%s'" % p for p in order) + "]") + "".join(forms))
+    return path, spec, (mult if with_mult else {"gpr": 1.0, "ymm": 1.0}), order
 
 
 def gen_kernel(rnd, spec):
@@ -78,7 +80,7 @@ def gen_kernel(rnd, spec):
     return lines, meta
 
 
-def clauses(form, name, kind, spec, mult, passes):
+def clauses(form, name, kind, spec, mult, passes, order):
     """violated clauses of the statement for one analysed instruction"""
     rt, alts = spec[name]
     uops = form.port_uops if not isinstance(form.port_uops, dict) else list(form.port_uops.values())[0]
@@ -91,7 +93,7 @@ def clauses(form, name, kind, spec, mult, passes):
         out.append(("own-uops", "micro-ops %s are none of the form's alternatives %s" % (uops, alts)))
         return out
     scaled = [(c, ps) for c, ps in uops[:n_reg]] + [(c * mult[rt], ps) for c, ps in uops[n_reg:]]
-    pp = dict(zip(PORTS, form.port_pressure))
+    pp = dict(zip(order, form.port_pressure))
     tol = 1e-6 if passes == 0 else 0.01 * len(uops) + 1e-6
     used = sorted({p for _, ps in scaled for p in ps})
     if any(v < -1e-9 for v in pp.values()):
@@ -117,7 +119,7 @@ def main():
     n_models, n_kernels = (12, 25) if A.tier != "thorough" else (60, 60)
     try:
         for mi in range(n_models):
-            path, spec, mult = gen_model(rnd, tmp, mi, with_mult=(mi % 2 == 1))
+            path, spec, mult, order = gen_model(rnd, tmp, mi, with_mult=(mi % 2 == 1))
             mm = MachineModel(path_to_yaml=path)
             for _ in range(n_kernels):
                 lines, meta = gen_kernel(rnd, spec)
@@ -134,7 +136,7 @@ def main():
                         R.fail("C01/models/crash", "models:crash:passes=%d:%s" % (passes, type(e).__name__), "analysis of %s with %d balancing pass(es) raised %r" % (lines, passes, e), desc)
                         continue
                     for f, (name, kind) in zip(k, meta):
-                        for what, detail in clauses(f, name, kind, spec, mult, passes):
+                        for what, detail in clauses(f, name, kind, spec, mult, passes, order):
                             # the second pass is known to break the Hall clause for overlapping micro-op port sets (known_findings.json)
                             key = "optimal:second-pass:overlapping-uops" if (passes == 2 and what == "hall") else "models:%s:passes=%d" % (what, passes)
                             R.fail("C01/models/" + what, key, "%s (%s, %d passes): %s" % (f.line.strip(), kind, passes, detail), desc)
